@@ -11,6 +11,7 @@ import (
 
 	"verifmc/drive"
 	"verifmc/rep"
+	"verifmc/sx"
 	"verifmc/term"
 )
 
@@ -31,7 +32,8 @@ var c06cfgs = []c06cfg{{false, false}, {false, true}, {true, false}, {true, true
 
 // c06Values: values variables take when a random text happens to compile
 // (scalars of every supported type, lists, nil).
-var c06Values = []interface{}{true, int64(1), "s", []int64{1}, []string{"a"}, nil, false, int64(0)}
+var c06Values = []interface{}{true, int64(1), "s", []int64{1}, []string{"a"}, nil, false, int64(0),
+	map[string]struct{}{"a": {}}, map[string]struct{}{"b": {}}, map[int64]struct{}{1: {}}} // pre-built sets (what `in` accepts)
 
 type c06worker struct {
 	h    *drive.Harness
@@ -179,7 +181,7 @@ func c06(r *rep.Run) {
 		tokLen, chLen = 6, 7
 		r.SetBudget(2400e9)
 	}
-	r.Rule = "every token sequence up to the length bound over a 22-token alphabet (parens, brackets, comma, ints, string, registered/unregistered identifiers, builtin/custom operators, !-forms, keywords, comments, valid and bogus directives) and every character string up to the bound over 18 characters (incl. 2- and 3-byte letters and U+00A0), each under {prefix,infix} x {undefined variables off,on}; every truncation / single-token deletion / duplication / adjacent swap of every valid corpus program; scaled shapes. For every text that compiles: Dump, DumpTable(both), Eval, TryEval(all cached / nothing cached) under bindings of every supported type incl. lists and nil, in all three event modes; oracle = no panic, exactly one of (program,error), LOOP positions strictly increasing. non-trivial = texts that compile"
+	r.Rule = "every token sequence up to the length bound over a 22-token alphabet (parens, brackets, comma, ints, string, registered/unregistered identifiers, builtin/custom operators, !-forms, keywords, comments, valid and bogus directives) and every character string up to the bound over 18 characters (incl. 2- and 3-byte letters and U+00A0), each under {prefix,infix} x {undefined variables off,on}; identifiers and string literals spelled like the engine's own markers/keywords (fi, if, eventNode, DNE, ...) in operand positions of 11 templates; every truncation / single-token deletion / duplication / adjacent swap of every valid corpus program; scaled shapes. For every text that compiles: Dump, DumpTable(both), Eval, TryEval(all cached / nothing cached) under bindings of every supported type incl. lists, pre-built sets and nil, in all three event modes; oracle = no panic, exactly one of (program,error), LOOP positions strictly increasing. non-trivial = texts that compile"
 	r.Assume = []string{"fetchers and operators supplied by the harness are well behaved (total, deterministic)",
 		"hangs are detected by the watchdog (no progress on one input for 180 s), never by a short wall-clock bound"}
 	r.Cov["bounds"] = map[string]int{"token_seq_len": tokLen, "char_string_len": chLen}
@@ -410,6 +412,33 @@ func c06(r *rep.Run) {
 	})
 	r.Cov["mutated_texts"] = muts
 	fmt.Printf("phase c done at %.1fs\n", time.Since(r.Start).Seconds())
+
+	// (d) identifiers and string literals spelled like the engine's own
+	// markers, keywords and literals, in operand positions of every kind
+	{
+		names := []string{"fi", "if", "cond", "end", "eventNode", "event", "DNE", "nil", "null", "true_", "T", "F", "and", "not", "in", "x"}
+		templates := []string{"(not (and N x x))", "(not (or N x x))", "(+ N 1 2 3 4 5 6 7 8 9)", "(not (and (= x \"N\" x) x))", "(+ (if x N 2) 1 2 3 4 5 6 7 8 9)",
+			"(if N 1 2)", "(and (not N) x)", "(f N \"N\" N)", "(not (and x (or N x) x))", "(= (+ 1 2 3 4 5 6 7 8 (f N)) 1)", "(in \"N\" (\"a\" \"N\"))"}
+		var n int64
+		for _, name := range names {
+			for _, tpl := range templates {
+				src := strings.ReplaceAll(tpl, "N", name)
+				srcs := []string{src}
+				if t, err := sx.Parse(src); err == nil {
+					srcs = append(srcs, Infix(t, 0))
+				}
+				for k, s2 := range srcs {
+					for ci, c := range c06cfgs {
+						if c.infix == (k == 1) {
+							c06One(r, ws[0], s2, ci, &st, true)
+							n++
+						}
+					}
+				}
+			}
+		}
+		r.Cov["marker_named_texts"] = n
+	}
 
 	// (e) scaled shapes
 	c06Scaled(r, ws, &st)
